@@ -525,6 +525,17 @@ void block_until_ready(const std::function<bool()>& ready) {
   }
 }
 
+bool block_until_ready_timed(const std::function<bool()>& ready, long long deadline_ns) {
+  if (tl_self < 0 || tl_in_rt) return ready();
+  Ign ig; RtGuard rg;
+  T& me = *g_threads[tl_self];
+  if (!ready() && g_now < deadline_ns) {
+    me.wk = W_PRED; me.wpred = &ready; me.timed = deadline_ns != LLONG_MAX; me.deadline = deadline_ns;
+    block_self(me);
+  }
+  return ready();
+}
+
 void fail(const char* props, const char* key, const char* msg) { Ign ig; tl_in_rt = true; die(props, key, msg); }
 void check(bool cond, const char* props, const char* key, const char* msg) { if (!cond) fail(props, key, msg); }
 void note(const char* token) { RtGuard rg; if (g_outcome.size() < 900) { g_outcome += token; g_outcome += ' '; } }
